@@ -190,7 +190,8 @@ def api_init(rng, T, recorded=None):
         dev = {"type": "recorded", "name": recorded, "latency": rng.choice([0.0, 0.02, 0.06, 0.099, 0.15, 0.3])}
         if rng.random() < 0.3:
             dev["latency"] = {"kind": "uniform", "lo": 0.0, "hi": rng.choice([0.1, 0.4]), "seed": rng.randrange(10 ** 6)}
-        return {"kind": "api_init", "device": dev, "after": [["dump"], ["close"]], "final_wait": 6}
+        return {"kind": "api_init", "device": dev, "after": [["dump"], ["close"]], "final_wait": 6, "known_ids": [c["id"] for c in T["classes"]], "healthy": True,
+                "readable": {c["id"]: [f["name"] for f in c["fns"] if f["get"]] for c in T["classes"]}}
     optional = [s for s in T["consts"]["subunits"] if s != "SYS"]
     k = rng.choice([0, 1, 2, 3, 5, 8, len(optional)])
     present = sorted(rng.sample(optional, k))
@@ -207,7 +208,11 @@ def api_init(rng, T, recorded=None):
         dev["swallow_first"] = 1
     if rng.random() < 0.3:
         dev["chunk"] = rng.randrange(1, 10 ** 6)
-    return {"kind": "api_init", "device": dev, "after": [["dump"], ["close"]], "final_wait": 6, "present": present}
+    lat = dev["latency"]
+    healthy = (isinstance(lat, (int, float)) and lat <= 0.5) or (isinstance(lat, dict) and lat["hi"] <= 0.5)
+    return {"kind": "api_init", "device": dev, "after": [["dump"], ["close"]], "final_wait": 6, "present": present,
+            "known_ids": [c["id"] for c in T["classes"]], "healthy": healthy,
+            "readable": {c["id"]: [f["name"] for f in c["fns"] if f["get"]] for c in T["classes"]}}
 
 
 def api_init_fault(rng, T, total_replies=None, total_bytes=None):
@@ -218,8 +223,10 @@ def api_init_fault(rng, T, total_replies=None, total_bytes=None):
     spec["device"]["avail"] = {s: "Ready" for s in present}
     spec["device"]["table"] = device_table(rng, T, ["SYS"] + present, p_answer=0.6)
     spec["device"].pop("unsolicited", None)
-    how = rng.choice(["silent", "eof", "open", "write"])
-    if how == "silent":
+    how = rng.choice(["silent", "eof", "open", "write", "drop"])
+    if how == "drop":
+        spec["device"]["drop_at"] = rng.choice([0, 0, 0.0001, 0.05, 0.15, 0.3, round(rng.uniform(0, 12), 3)])
+    elif how == "silent":
         spec["device"]["silent_after"] = rng.randint(0, 120)
     elif how == "eof":
         spec["device"]["eof_after_bytes"] = rng.choice([0, 1, 5, 19, 20, 21, 40]) if rng.random() < 0.4 else rng.randint(0, 3000)
@@ -228,6 +235,7 @@ def api_init_fault(rng, T, total_replies=None, total_bytes=None):
     else:
         spec["write_fault_after"] = rng.randint(0, 80)
     spec["fault"] = how
+    spec["healthy"] = False
     spec["after"] = [["dump"], ["sleep", 5.0], ["close"]]
     return spec
 
@@ -269,4 +277,12 @@ def subunit_init(rng, T):
         dev["version"] = None        # the sync query is never answered
     elif r < 0.25:
         dev["silent_after"] = rng.randint(2, 12)
-    return {"kind": "subunit", "class": c["py"], "device": dev}
+    queries = []
+    for f in c["fns"]:
+        if f["no_init"]:
+            continue
+        q = f["init"] or f["name"]
+        if q not in queries:
+            queries.append(q)
+    return {"kind": "subunit", "class": c["py"], "device": dev, "expect_id": c["id"], "expect_queries": queries,
+            "readable": [f["name"] for f in c["fns"] if f["get"]]}
